@@ -35,7 +35,7 @@ TIERS = {
     "thorough": {"shards": 16, "cases": 60000, "timeout": 3000},
 }
 FLOORS = {
-    "quick": {"counts": {"shapes_checked": 1200, "vertices_checked": 50000,
+    "quick": {"counts": {"shapes_checked": 1200, "tiny_or_almost_full_sweeps": 12, "vertices_checked": 50000,
                          "filter_contract_evals": 1000}, "keys": 150},
     "thorough": {"counts": {"shapes_checked": 30000, "filter_contract_evals": 25000}, "keys": 300},
 }
